@@ -5,7 +5,8 @@
    [A: stability and ordering contract of std::stable_sort]; std::for_each by a loop calling the EXTRACTED functor.
    Checked: (a) every element whose sequence number is current at pass start is invoked at most once per pass, in queue order;
             (b) elements leave the queue only by being invoked;  (c) after a pass in which an event was handled the queue is
-            again in arrival order.                                                                                         */
+            again in arrival order;  (d) a new cycle retries EVERY pending occurrence, oldest first;  (e) every occurrence still
+            pending at the end was re-evaluated after the last handled event (= configuration change) and waits for the next cycle.                                                                                         */
 #ifndef QN
 #define QN 3
 #endif
@@ -26,7 +27,7 @@ static _Bool sort_greater_call(pair_t const* d1, pair_t const* d2);     /* extra
 static void set_sequence_call(char seq_, pair_t* d);                    /* extracted: set_sequence::operator() */
 static void std_stable_sort(dq_t* q){ for(int i=1;i<q->n;i++){ pair_t k=q->a[i]; int j=i-1; while(j>=0 && sort_greater_call(&k,&q->a[j])){ q->a[j+1]=q->a[j]; j--; } q->a[j+1]=k; } }
 static void std_for_each_set(dq_t* q, char s){ for(int i=0;i<q->n;i++) set_sequence_call(s, &q->a[i]); }
-int g_log[8*QN+8]; int g_nlog; int g_budget; int g_pass_start_log;
+int g_log[8*QN+8]; int g_res[8*QN+8]; int g_nlog; int g_budget; int g_pass_start_log;
 int nondet_int(void);
 helper_t* g_h;
 /* invoking a deferred call (process_event_internal with EVENT_SOURCE_DEFERRED): it may be handled, rejected, unhandled, or
@@ -34,8 +35,10 @@ helper_t* g_h;
 static execute_return invoke_deferred(int ticket){
   __CPROVER_assert(g_nlog < 8*QN+8, "log capacity"); g_log[g_nlog++]=ticket;
   int r=nondet_int(); __CPROVER_assume(r==HANDLED_FALSE||r==HANDLED_TRUE||r==HANDLED_DEFERRED||r==HANDLED_GUARD_REJECT);
+  g_res[g_nlog-1]=r;
   if (r==HANDLED_TRUE || r==HANDLED_GUARD_REJECT) { __CPROVER_assume(g_budget>0); g_budget--; }
   if (r==HANDLED_DEFERRED){ pair_t p; p.first=ticket; p.second=(char)(g_h->m_cur_seq+1); dq_push_back(&g_h->m_deferred_events_queue,p); }
   return (execute_return)r;
 }
+#define cur_seq (m_events_queue->m_cur_seq)      /* the reference local `char& cur_seq = m_events_queue.m_cur_seq;` */
 void do_handle_deferred(helper_t* m_events_queue, _Bool new_seq);
